@@ -51,7 +51,7 @@ pub fn contig_idx(cs: &CallSet, i: usize) -> usize {
 
 pub fn header_text(cs: &CallSet) -> String {
     let mut h = String::new();
-    h.push_str("##fileformat=VCFv4.3\n");
+    h.push_str(&format!("##fileformat=VCFv{}\n", cs.vcf_version()));
     h.push_str(&format!("##FILTER=<ID=PASS,Description=\"All filters passed\",IDX={IDX_PASS}>\n"));
     h.push_str(&format!("##FILTER=<ID=q10,Description=\"Quality below 10\",IDX={IDX_Q10}>\n"));
     for (i, c) in cs.contigs.iter().enumerate() {
